@@ -261,6 +261,12 @@ def relabel(rng, D, voc=VOC):
     return [[m.get(t, t) for t in d] for d in D]
 
 
+def revocab(D, old="a", new="q"):
+    """the same documents over a vocabulary of the same size with one member exchanged (for refits: a model that
+    keeps anything of the previous vocabulary shows)"""
+    return [[new if t == old else t for t in d] for d in D]
+
+
 def with_rare(D, tag="r"):
     """every document gets one token that occurs nowhere else (pruned by min_occurrences=2, unknown to a dictionary)"""
     return [list(d[: len(d) // 2]) + ["%s%d" % (tag, i)] + list(d[len(d) // 2:]) for i, d in enumerate(D)]
@@ -308,7 +314,7 @@ def token_like(cls, name, rng, cell, kw, conv=lambda D: D, minlen=2, poison=None
     A = with_rare(docs(rng, 4, minlen=minlen), tag="zz")               # unknown tokens in every document
     B = relabel(rng, A)                                                # same shape, other tokens, same vocabulary size
     C = docs(rng, 2, minlen=minlen)
-    D2 = relabel(rng, D)
+    D2 = revocab(relabel(rng, D))
     o, po = cell["outer"], cell["pool_outer"]
     others = [x for x in OUTER if x != po]
     # plain token documents can also be numpy string arrays; items with structure (timestamps, multisets) cannot
@@ -512,7 +518,7 @@ def sc_tree(rng, cell, fx):
             freeze((pack_trees(shC, labC, "list", f + 2, pair), {})), freeze((pack_trees(sh[:3], lab[:3], "tuple", f + 3, pair), {}))]
     no_alias = {"token_dictionary": ["token_label_dictionary_"]} if "token_dictionary" in kw else {}
     return Scenario(V.LabelledTreeCooccurrenceVectorizer, "LabelledTreeCooccurrenceVectorizer(%r) outer:%s pair:%s fmt+%d" % (kw, o, cell["pair"], f),
-                    freeze(kw), fitd, pool, refit_data=freeze((pack_trees(sh, relabel(rng, lab, voc), o, f + 4, pair), {})),
+                    freeze(kw), fitd, pool, refit_data=freeze((pack_trees(sh, revocab(relabel(rng, lab, voc)), o, f + 4, pair), {})),
                     use_ft=cell["use_ft"], no_alias=no_alias,
                     poison=lambda: ([(sp.csr_matrix(np.eye(2, k=1)), np.array(["a", "b"])), (sp.csr_matrix(np.eye(3, k=1)), None)], {}))
 
@@ -557,7 +563,7 @@ def sc_edgelist(rng, cell, fx):
     perm_r = {r: rows[(i + 1) % len(rows)] for i, r in enumerate(rows)}
     B = [(perm_r.get(r, r), c, v) for r, c, v in A]
     pool = [freeze((cont(1)(A), {})), freeze((cont(1)(B), {})), freeze((cont(2)(D[:4]), {})), freeze((cont(3)(A), {})), freeze((cont(4)(D), {}))]
-    D2 = [(perm_r.get(r, r), c, int(v) + 1) for r, c, v in D]
+    D2 = [("q0" if perm_r.get(r, r) == "r0" else perm_r.get(r, r), "q1" if c == "c1" else c, int(v) + 1) for r, c, v in D]   # other labels too
     no_alias = {}
     return Scenario(V.EdgeListVectorizer, "EdgeListVectorizer(%r) cont:%s" % (kw, cell["cont"]), freeze(kw), freeze((cont(0)(D), {})),
                     pool, refit_data=freeze((cont(0)(D2), {})), use_ft=cell["use_ft"], no_alias=no_alias,
@@ -665,7 +671,7 @@ def string_like(cls, name, kw, rng, cell, conts, mk, seeded=False):
     B = [a.translate(tr) for a in A]
     pool = [freeze((cont(1)(A), {})), freeze((cont(1)(B), {})), freeze((cont(2)(D[:2]), {})), freeze((cont(3)(D[::-1]), {})), freeze((cont(4)(A), {}))]
     return Scenario(cls, "%s(%r) cont:%s" % (name, kw, cell["cont"]), freeze(kw), freeze((cont(0)(D), {})), pool, seeded=seeded,
-                    refit_data=freeze((cont(0)([d.translate(tr) for d in D]), {})), use_ft=cell["use_ft"],
+                    refit_data=freeze((cont(0)([d.translate(tr).replace("a", "q") for d in D]), {})), use_ft=cell["use_ft"],
                     poison=lambda: (["abcabc", 17], {}))
 
 
